@@ -104,7 +104,10 @@ def rand_tree(r, maxdepth=3, nfiles=6, dangerous=0.0, safe_links=0.2, levels=(2,
                 entries.append(Entry("dir", prefix + nm + b"/", perms=perms, mtime=t0 + r.randrange(10 ** 8), level=lvl))
                 fill(prefix + nm + b"/", depth + 1, max(1, budget // 2))
             elif k < 0.3 + safe_links:
-                tgt = r.choice([rname(r), b"./" + rname(r), rname(r) + b"/" + rname(r)])
+                tgt = r.choice([rname(r), b"./" + rname(r), rname(r) + b"/" + rname(r),
+                                # relative, no '..' COMPONENT, but components that merely begin or end with dots
+                                b"..data/" + rname(r), b".../" + rname(r), rname(r) + b"/..x/" + rname(r), b"..a", rname(r) + b"/...",
+                                b"a../" + rname(r), rname(r) + b"/"])
                 entries.append(Entry("link", prefix + nm, target=tgt, level=lvl))
             elif k < 0.3 + safe_links + dangerous:
                 tgt = r.choice([b"/tmp/" + rname(r), b"../" + rname(r), b"../../" + rname(r), rname(r) + b"/../../" + rname(r), b"/"])
